@@ -70,13 +70,17 @@ Fixpoint walk_sec (prefix : list pstr) (k : pstr) (x : sec) : list (list pstr * 
 Definition walk (d : secs) : list (list pstr * sec) :=
   flat_map (fun kv => walk_sec [] (fst kv) (snd kv)) d.
 
-(* the outline: for every section in pre-order the titles on the way to it *)
-Fixpoint title_paths_sec (prefix : list pstr) (x : sec) : list (list pstr) :=
+(* pre-order list of (titles on the way to the section, its content) *)
+Fixpoint sections_sec (prefix : list pstr) (x : sec) : list (list pstr * pstr) :=
   match x with
-  | Sec t _ l => (prefix ++ [t]) :: flat_map (fun kv => title_paths_sec (prefix ++ [t]) (snd kv)) l
+  | Sec t c l => (prefix ++ [t], c) :: flat_map (fun kv => sections_sec (prefix ++ [t]) (snd kv)) l
   end.
-Definition outline (d : secs) : list (list pstr) :=
-  flat_map (fun kv => title_paths_sec [] (snd kv)) d.
+Definition sections_from (prefix : list pstr) (d : secs) : list (list pstr * pstr) :=
+  flat_map (fun kv => sections_sec prefix (snd kv)) d.
+Definition sections (d : secs) := sections_from [] d.
+
+(* the outline: for every section in pre-order the titles on the way to it *)
+Definition outline (d : secs) : list (list pstr) := map fst (sections d).
 
 (* Card._generate_content: the yielded strings, tagged *)
 Inductive ritem := RHead (depth : nat) (title : pstr) | RBody (t : pstr).
